@@ -318,6 +318,9 @@ def main(argv=None):
         if len(viol_lines) > 8:
             print(f"... and {len(viol_lines) - 8} more violation keys (see evidence/{prop}.json coverage.violation_keys and evidence/replays/)")
         return 1
+    if agg["dead"] * 2 > agg["shards"]:
+        print(f"INCONCLUSIVE property={prop}: {agg['dead']} of {agg['shards']} shards did not finish (outer watchdog or worker crash); no verdict")
+        return 2
     if evals < min_evals or len(agg["distinct"]) < 2:
         print(f"INCONCLUSIVE property={prop}: deciding monitor reached only {evals} evaluations (< {min_evals}); no verdict")
         return 2
